@@ -207,6 +207,16 @@ where
     let mut x = x0;
     let mut iter = 0;
 
+    // the callers' closed-form starting points can land to the right of
+    // the root (where f < 0), in which case the very first step would be
+    // negative and x0 would be returned as is.   f is decreasing from +∞
+    // at zero, so pull back towards zero until the start is on the left.
+    while f0(x) < T::zero() && iter < 100 {
+        iter += 1;
+        x *= (0.5).as_T();
+    }
+    iter = 0;
+
     while iter < 100 {
         iter += 1;
         let dfdx = f1(x);
